@@ -632,11 +632,11 @@ func c16Run(files map[string]string) (*pongo2.Error, string, error) {
 
 func c16Locate(cs *c16Fault, files map[string]string, e *pongo2.Error, phase string) (int, bool, error) {
 	named := e.Filename
-	if named == "" && e.Token != nil {
-		named = e.Token.Filename
-	}
 	if phase == "compile" && e.Filename == "" {
 		return 0, false, fmt.Errorf("compile error does not name a template: %v", e)
+	}
+	if e.Line > 0 && named == "" {
+		return 0, false, fmt.Errorf("error carries line %d col %d but names no source the position could refer to: %v", e.Line, e.Column, e)
 	}
 	if e.Line <= 0 {
 		return 0, false, nil // no position carried
@@ -790,11 +790,11 @@ func checkC16Any(c any, r *Rec) error {
 		return fmt.Errorf("%s error is %T, not *pongo2.Error: %v", phase, err, err)
 	}
 	named := e.Filename
-	if named == "" && e.Token != nil {
-		named = e.Token.Filename
-	}
 	if phase == "compile" && e.Filename == "" {
 		return fmt.Errorf("compile error does not name a template: %v\n files=%q", e, files)
+	}
+	if e.Line > 0 && named == "" {
+		return fmt.Errorf("%s error carries line %d col %d but names no source the position could refer to: %v\n files=%q", phase, e.Line, e.Column, e, files)
 	}
 	if e.Line <= 0 {
 		r.Class(phase + ":no-position")
